@@ -1,4 +1,4 @@
-SPECIFICATION FSpec
+SPECIFICATION GSpec
 CONSTANTS
   Repos = {"r1", "r2", "r3", "r4"}
   Tags = {"t1", "t2"}
@@ -17,7 +17,5 @@ CONSTANTS
   MaxSteps = 1
   HostileSteps = 1
   AllScopes = FALSE
-INVARIANTS FTypeOK
-PROPERTIES RejectedNeverReachesBackend ListingFiltered ErrorIsPolicyError AllowedIsTransparent SelectErrorKinds ConsultationsExact
-VIEW FView
+  GenWhat = {"checkerops", "checkerlist", "selectlist", "selectops"}
 CHECK_DEADLOCK FALSE
